@@ -112,6 +112,11 @@ pub enum Fault {
     GarbageKb(String),
     /// the trailing `~` of a compact message was lost: the last disclosure sits in the KB slot
     LastDisclosureIntoKbSlot,
+    /// a `~` and disclosure i are appended to a JWT part (only a JSON envelope can carry that):
+    /// the disclosure travels inside `signature` / `payload` / `protected`
+    MoveDisclosureIntoPart { part: Part, i: usize },
+    /// KB-JWT signed by `key` whose public JWK (and a `kid`) is embedded in the KB-JWT's own header
+    ResignKbEmbedJwk { key: String, kid: String, aud: String, nonce: String },
     ReplayKb { from: usize },
     /// KB-JWT rebuilt over the *current* message by `key` (holder, non-holder, issuer …).
     ResignKb { key: String, alg: String, aud: String, nonce: String },
@@ -142,6 +147,8 @@ impl Fault {
             Fault::StripKb => "strip_kb",
             Fault::GarbageKb(_) => "garbage_kb",
             Fault::LastDisclosureIntoKbSlot => "lost_trailing_separator",
+            Fault::MoveDisclosureIntoPart { .. } => "separator_inside_json_member",
+            Fault::ResignKbEmbedJwk { .. } => "resign_kb",
             Fault::EmptyKb => "empty_kb",
             Fault::ReplayKb { .. } => "replay_kb",
             Fault::ResignKb { .. } => "resign_kb",
@@ -605,6 +612,29 @@ pub fn apply(f: &Fault, m: &mut Message, tokens: &[Message], w: &mut World, now:
             m.disclosures.insert(at, text.clone());
         }
         Fault::StripKb => m.kb = None,
+        Fault::MoveDisclosureIntoPart { part, i } => {
+            if !m.disclosures.is_empty() && matches!(part, Part::H | Part::P | Part::S) {
+                let d = m.disclosures.remove(*i % m.disclosures.len());
+                if let Some(t) = part_get(m, *part) {
+                    part_set(m, *part, format!("{}~{}", t, d));
+                }
+            }
+        }
+        Fault::ResignKbEmbedJwk { key, kid, aud, nonce } => {
+            if !key.starts_with("hs") {
+                if let Ok(alg) = keys::alg_of(key).parse::<jsonwebtoken::Algorithm>() {
+                    let mut header = jsonwebtoken::Header::new(alg);
+                    header.typ = Some("kb+jwt".into());
+                    header.kid = Some(kid.clone());
+                    header.jwk = Some(keys::jwk(&format!("{}#{}", keys::base(key), kid)));
+                    let claims = kb_claims(aud, nonce, now, &sd_hash_of(m));
+                    if let Ok(kb) = jsonwebtoken::encode(&header, &claims, &keys::enc_key(key)) {
+                        w.kb_made.insert(kb.clone(), crate::world::KbRecord { key: key.clone(), alg: keys::alg_of(key).to_string() });
+                        m.kb = Some(kb);
+                    }
+                }
+            }
+        }
         Fault::GarbageKb(t) => m.kb = Some(t.clone()),
         Fault::LastDisclosureIntoKbSlot => {
             if m.kb.is_none() {
